@@ -11,7 +11,9 @@ RULE = ('histories of 1-3 operations (Stream.mix_from with 0-5 inlets, split_to,
         'store of 3-6 real streams built on 5 real property packages (6 user-defined chemicals listed in different orders '
         'and subsets, two packages with equal lists but distinct objects); single- and multi-phase receivers and inlets, '
         'phases from s l g S L, the receiver among the inlets 0/1/2 times, dyadic flows including all-zero streams, '
-        'energy_balance on and off, the temperature solver made to fail 0-3 times (fallback to multi-phase); executed on '
+        'energy_balance on and off, the temperature solver made to fail 0-3 times (fallback to multi-phase); families of histories '
+        'for cache-order effects, MultiStream.copy_flow and aliases (flow_proxy objects with their own phase, sub-streams ms[p] handed '
+        'out before the history; what EVERY stream object shows is compared); executed on '
         'the real classes and on the Coq model; the whole store (class, package, phases, every phase x chemical flow) or '
         'the exception class and the store before the raising call are compared.  non-trivial = an operation succeeded '
         'and changed the store, or raised; distinct = distinct case hash')
@@ -27,7 +29,10 @@ ASSUMPTIONS = [
 TRUSTED = ['model coq/C01/Model.v is hand-written from thermosteam/{_stream,_multi_stream,indexer,_phase}.py and '
            'base/sparse.py (SparseVector.mix_from); tie = correspondence check',
            'SparseVector/SparseArray item access, arithmetic and sum are modelled by their dense meaning (property C09)',
-           'copy_flow of a stream onto itself is not modelled (never generated)']
+           'copy_flow of a stream onto itself is not modelled (never generated)',
+           'aliases: flow proxies of single-phase streams and per-phase sub-streams multistream[p] are modelled as handles on shared '
+           'cells (Model.astep); operations that would replace the indexer of a stream whose data is shared (phases setters) are '
+           'outside the modelled fragment: such a history is cut before that operation; linked MultiStreams are not modelled']
 
 NAMES = ['A_', 'B_', 'C_', 'D_', 'E_', 'F_']
 PKGS = [['A_', 'B_', 'C_', 'D_', 'E_', 'F_'], ['C_', 'A_', 'B_'], ['F_', 'E_', 'D_', 'C_', 'B_', 'A_'], ['B_', 'D_'],
@@ -242,8 +247,19 @@ def gen_alias_case(rng):
         ph = sorted(rng.sample(['g', 'l', 's'], 2))
         streams.append({'pkg': k, 'multi': True, 'phases': ph,
                         'flows': [[float(rng.choice(VALS)) if rng.random() < 0.6 else 0. for _ in PKGS[k]] for _ in ph]})
+    newphase = {}                # for a multi-phase stream: a single-phase stream in a phase it lacks
+    for j in range(len(streams)):
+        if streams[j]['multi'] and rng.random() < 0.8:
+            missing = [p for p in ['g', 'l', 's'] if p not in [q.lower() for q in streams[j]['phases']]]
+            if missing:
+                k = rng.choice([streams[j]['pkg'], streams[j]['pkg'], 1])
+                streams.append({'pkg': k, 'multi': False, 'phases': [rng.choice(missing)],
+                                'flows': [[float(rng.choice(VALS[1:])) if rng.random() < 0.7 else 0. for _ in PKGS[k]]]})
+                newphase[j] = len(streams) - 1
     ns = len(streams)
     handles = []
+    for j in newphase:           # the sub-streams are handed out before the phases are expanded
+        handles.append(['view', j, rng.choice(streams[j]['phases'])])
     for _ in range(rng.choice([1, 2, 2, 3])):
         j = rng.randrange(ns)
         if streams[j]['multi']:
@@ -261,7 +277,7 @@ def gen_alias_case(rng):
         streams_extra.pop('order', None)
     ops = []
     for _ in range(rng.choice([2, 3, 3, 4])):
-        kind = rng.choice(['mix_alias1', 'mix_alias1', 'mix_aliasn', 'mix_new_phase', 'mix_from_view', 'split', 'split_multi',
+        kind = rng.choice(['mix_alias1', 'mix_alias1', 'mix_aliasn', 'mix_new_phase', 'mix_new_phase', 'mix_from_view', 'split', 'split_multi',
                            'sep', 'scale', 'copy_flow', 'mul'])
         r = rng.choice(nonviews)
         same = [k for k in range(nh) if k != r and cell[k] == cell[r]]
@@ -275,8 +291,10 @@ def gen_alias_case(rng):
             ops.append(['mix', r, ins, rng.random() < 0.4, 0])
         elif kind == 'mix_new_phase':
             multis = [k for k in range(ns) if streams[k]['multi']]
-            r = rng.choice(multis) if multis else r
+            r = rng.choice(list(newphase) or multis or [r])
             ins = [rng.randrange(nh) for _ in range(rng.choice([1, 2, 3]))]
+            if r in newphase:
+                ins.insert(rng.randrange(len(ins) + 1), newphase[r])
             ops.append(['mix', r, ins, rng.random() < 0.3, 0])
         elif kind == 'mix_from_view':
             ins = ([rng.choice(views)] if views else []) + [rng.randrange(nh) for _ in range(rng.choice([0, 1, 2]))]
@@ -644,6 +662,11 @@ def oracle(case):
             ne = sum(1 for i in ins if any(tot0[i][n] != 0 for n in NAMES))
             where = (f'mix:recv={kinds[r]}:inlets={"".join(sorted(set(kinds[i] for i in ins)))}:nonempty={min(ne, 2)}:eb={int(eb)}:hf={min(hf, 2)}'
                      f':self={int(r in ins)}:otherpkg={int(any(pkg_of(store[i]) != pkg_of(store[r]) for i in ins))}')
+            nonempty = [i for i in ins if any(tot0[i][n] != 0 for n in NAMES)]
+            if (eb and kinds[r] == 'M' and len(nonempty) == 1 and nonempty[0] != r and not raised
+                    and r < len(store) and nonempty[0] < len(store) and shares(store[nonempty[0]], store[r])):
+                # class already present in the unchanged tree: stable key
+                where = 'mix:recv=M:only-inlet-is-own-sub-stream:eb=1'
             if raised:
                 # a RuntimeError with hf > 0 is the (oracle) temperature solver giving up
                 if pre and not (eb and hf > 0 and raised == 'RuntimeError'):
@@ -816,6 +839,13 @@ CORPUS = [
      'ops': [['copy_flow', 0, 1, None, True, False, 'g']]},
     {'streams': [_m(0, ['g', 'l'], [[1., 0, 0, 0, 0, 0], _Z6]), _s(4, 'g', [0, 1., 2., 0, 0, 4.])],
      'ops': [['copy_flow', 0, 1, ['B_', 'F_'], True, False, 'l'], ['copy_flow', 0, 1, 'C_', True, False, 'g']]},
+    # aliases: the receiver's flow proxy is the only non-empty inlet of an energy-balanced mix (copy_like on shared data)
+    {'streams': [_s(1, 'l', [1., 2., 0]), _s(1, 'g', [0, 0, 0])], 'handles': [['proxy', 0, 'g']],
+     'ops': [['mix', 0, [2, 1], True, 0], ['mix', 2, [0], True, 0], ['mix', 0, [2, 1, 0], False, 0]]},
+    # aliases: sub-streams handed out before a mix that expands the phases must keep showing the MultiStream's rows
+    {'streams': [_m(1, ['g', 'l'], [[1., 0, 0], [0, 2., 4.]]), _s(1, 's', [0, 1., 1.]), _s(1, 'l', [8., 0, 0]), _s(1, 'l', [0, 0, 0]), _s(1, 'g', [0, 0, 0])],
+     'handles': [['view', 0, 'l'], ['view', 0, 'g']],
+     'ops': [['mix', 0, [1, 2, 0], False, 0], ['mix', 3, [5], True, 0], ['split', 0, 3, 4, 0.5, True]]},
     # mix then separate (same and other package, self inlet)
     {'streams': [_s(0, 'l', [1., 2., 0, 0, 0, 0]), _s(1, 'g', [4., 0.5, 0]), _m(2, ['g', 'l'], [[0, 0, 0, 0, 1., 0], [0, 0, 0, 8., 0, 3.]])],
      'ops': [['mix', 0, [0, 1, 2, 0], False, 0], ['sep', 0, 2]]},
@@ -834,6 +864,9 @@ _ALL_WITNESSES = [
     {'key': 'C01:copy_flow:recv=M:src=S:exclude-with-other-phase-selector:remove=1',
      'case': {'streams': [_m(1, ['g', 'l'], [[0, 0, 0], [0, 0, 0]]), _s(1, 'l', [4., 1., 2.])],
               'ops': [['copy_flow', 0, 1, ['A_'], True, True, 'g']]}},
+    {'key': 'C01:mix:recv=M:only-inlet-is-own-sub-stream:eb=1',
+     'case': {'streams': [_m(1, ['g', 'l'], [[1., 0, 0], [0, 2., 4.]])], 'handles': [['view', 0, 'l']],
+              'ops': [['mix', 0, [1], True, 0]]}},
 ]
 def _recorded():
     import os, re
